@@ -17,7 +17,7 @@ from harness import common, netsim
 OK = b'HTTP/1.1 200 OK\r\nContent-Length: 2\r\n\r\nok'
 BEHAVIOURS = ['ok', 'ok', 'ok-close', 'redirect', 'garbage', 'reset-before-header', 'eof-immediately', 'reset-mid-body',
               'connect-refused', 'challenge', 'hang-cancelled', 'short-body-eof', 'bad-chunk', 'connect-timeout']
-KINDS = ['http', 'web', 'web', 'robots']
+KINDS = ['http', 'web', 'web', 'robots', 'generic']
 POOLS = ['direct', 'direct', 'direct', 'proxy', 'tunnel']
 
 
@@ -34,6 +34,9 @@ def script_for(op, rng):
     '''Responses (in order) the peer gives to this operation's requests, and connect failures to queue first.'''
     b = op['behaviour']
     keep = {'pieces': [OK], 'then': 'keep'}
+    if op['kind'] == 'generic':
+        # a client that only checks a connection out and in again through the pool's general interface (no request)
+        return [], ([ConnectionRefusedError(111, 'refused')] if b == 'connect-refused' else [TimeoutError('connect timed out')] if b == 'connect-timeout' else [])
     if b == 'ok':
         return [keep], []
     if b == 'ok-close':
@@ -116,6 +119,13 @@ def run_case(case, part):
                     with session:
                         await session.start(Request(url))
                         await session.download(file=io.BytesIO())
+                elif op['kind'] == 'generic':
+                    # the interface every pool shares: acquire(host, port, use_ssl) -> connection, release(connection)
+                    connection = await pool.acquire(op['host'], 443 if scheme == 'https' else 80, scheme == 'https')
+                    if connection is None:
+                        result['acquire_returned_nothing'] = True
+                        return
+                    await pool.release(connection)
                 elif op['kind'] == 'web':
                     request = Request(url)
                     if op['login']:
@@ -254,6 +264,8 @@ def run_case(case, part):
         part.violation('real-client-blocked-forever/{}/{}'.format(case['pool'], last['kind']),
                        {'outcomes': result['outcomes'], 'state': result.get('state'), 'ops': case['ops']}, replay)
         return
+    if result.get('acquire_returned_nothing'):
+        part.violation('pool-acquire-returned-no-connection/' + case['pool'], {'state': result.get('state'), 'ops': case['ops']}, replay)
     if result.get('settle'):
         part.violation('real-clients-settle-' + result['settle'].split(' ')[0] + '/' + case['pool'],
                        {'settle': result['settle'], 'state': result.get('state')}, replay)
